@@ -233,3 +233,30 @@ pub mod sync;
 pub mod timer;
 
 mod utils;
+
+/// Read-only inspection hooks for external verification tooling.
+/// Compiled only with `--cfg futures_intrusive_verif`.
+#[cfg(futures_intrusive_verif)]
+#[allow(missing_docs, missing_debug_implementations)]
+pub mod verif {
+    pub use crate::intrusive_double_linked_list::{LinkedList, ListNode};
+    pub use crate::intrusive_pairing_heap::{HeapNode, PairingHeap};
+    pub use crate::noop_lock::NoopLock as NoopLockV;
+
+    /// One entry of a wait queue: node address, poll-state code, the data
+    /// pointer of the stored waker (0 if none) and a primitive specific value.
+    #[derive(Debug, Clone, Copy, PartialEq, Eq)]
+    pub struct VerifNode {
+        pub addr: usize,
+        pub state: u8,
+        pub waker: usize,
+        pub extra: u64,
+    }
+
+    pub fn waker_data(w: &Option<core::task::Waker>) -> usize {
+        match w {
+            Some(w) => w.data() as usize,
+            None => 0,
+        }
+    }
+}
